@@ -126,27 +126,28 @@ def Names.tok (N : Names) (name : String) : Int := ((N.toks.find? (·.1 == name)
 def kids : Tree → List Tree
   | .node _ ks => ks
   | _ => []
-def ruleKids (t : Tree) : List Tree := (kids t).filter (fun k => k.rootRule.isSome)
-def kidsOfRule (N : Names) (t : Tree) (name : String) : List Tree :=
-  (kids t).filter (fun k => match k.rootRule with | some r => N.rule r == name | none => false)
+def isNode (k : Tree) : Bool := k.rootRule.isSome
+def ruleKids (t : Tree) : List Tree := (kids t).filter isNode
+def isRuleKid (N : Names) (name : String) (k : Tree) : Bool :=
+  match k.rootRule with | some r => N.rule r == name | none => false
+def kidsOfRule (N : Names) (t : Tree) (name : String) : List Tree := (kids t).filter (isRuleKid N name)
 def kidOfRule (N : Names) (t : Tree) (name : String) : Option Tree := (kidsOfRule N t name).head?
 def ruleNameOf (N : Names) (t : Tree) : String := match t.rootRule with | some r => N.rule r | none => "<leaf>"
-/-- terminal children (error nodes included, as GetToken does) having token type `name` -/
-def hasTok (N : Names) (t : Tree) (name : String) : Bool :=
-  (kids t).any (fun k => match k with
-    | .leaf s => leafType s == N.tok name
-    | .err s => leafType s == N.tok name
-    | _ => false)
-def countTok (N : Names) (t : Tree) (name : String) : Nat :=
-  ((kids t).filter (fun k => match k with
-    | .leaf s => leafType s == N.tok name
-    | .err s => leafType s == N.tok name
-    | _ => false)).length
-/-- newTokenLiteralIterator: TrimSpace'd texts of *TerminalNodeImpl children that are not blank -/
-def litTokens (t : Tree) : List String :=
-  (kids t).filterMap (fun k => match k with
-    | .leaf s => if goBlank (leafText s) then none else some (leafText s)   -- (TrimSpace of a non-blank SP keeps inner text; approximated by the raw text)
-    | _ => none)
+/-- a terminal child (error nodes included, as GetToken does) of token type `name` -/
+def isTokLeaf (N : Names) (name : String) (k : Tree) : Bool :=
+  match k with
+  | .leaf s => leafType s == N.tok name
+  | .err s => leafType s == N.tok name
+  | .node _ _ => false
+def hasTok (N : Names) (t : Tree) (name : String) : Bool := (kids t).any (isTokLeaf N name)
+def countTok (N : Names) (t : Tree) (name : String) : Nat := ((kids t).filter (isTokLeaf N name)).length
+/-- newTokenLiteralIterator: TrimSpace'd texts of *TerminalNodeImpl children that are not blank
+(TrimSpace of a non-blank SP keeps inner text; approximated by the raw text) -/
+def litTok (k : Tree) : Option String :=
+  match k with
+  | .leaf s => if goBlank (leafText s) then none else some (leafText s)
+  | _ => none
+def litTokens (t : Tree) : List String := (kids t).filterMap litTok
 
 /-- ctx.GetText(): concatenation of all terminal texts of the subtree -/
 def getText : Nat → Tree → String
@@ -159,7 +160,7 @@ def lower (s : String) : String := s.map Char.toLower
 
 /-! ### small parsers of the Go standard library that the visitors call -/
 
-def isDigit (c : Char) : Bool := '0' ≤ c && c ≤ '9'
+def isDigit (c : Char) : Bool := c.isDigit
 /-- strconv.ParseInt(s, 10, 64) on an unsigned digit string -/
 def parseInt64 (s : String) : Option Int :=
   if s.isEmpty || !(s.toList.all isDigit) then none
